@@ -94,4 +94,113 @@ theorem decIsKey_adjacent_excl (d : Dec) (n : Nat) (hn : 0 < n) (he : n / 2 ^ 52
     exact ord_excl (p := (2 ^ 52 + n % 2 ^ 52) % 2 == 0) (q := (2 ^ 52 + (n % 2 ^ 52 + 1)) % 2 == 0)
       (by simp only [beq_iff_eq]; omega) h1.1.2 h2.2
 
+/-- across a binade boundary (and from the last subnormal to the first normal) -/
+theorem decIsKey_adjacent_excl_cross (d : Dec) (n : Nat) (hn : 0 < n) (he : (n + 1) / 2 ^ 52 < 2047)
+    (hm : n % 2 ^ 52 + 1 = 2 ^ 52) :
+    ¬ (decIsKey d (n : Int) = true ∧ decIsKey d ((n + 1 : Nat) : Int) = true) := by
+  have e1 : (n + 1) / 2 ^ 52 = n / 2 ^ 52 + 1 := by omega
+  have m1 : (n + 1) % 2 ^ 52 = 0 := by omega
+  have m0 : n % 2 ^ 52 = 2 ^ 52 - 1 := by omega
+  have he0 : n / 2 ^ 52 < 2047 := by omega
+  rw [decIsKey_pos d n hn he0, decIsKey_pos d (n + 1) (by omega) he]
+  simp only [e1, m1, m0]
+  intro ⟨h1, h2⟩
+  have hne : ¬ (n / 2 ^ 52 + 1 = 0) := by omega
+  simp only [hne, if_false, Bool.and_eq_true] at h1 h2
+  by_cases hz : n / 2 ^ 52 = 0
+  · have hgt : ¬ (True ∧ 0 + 1 > 1) := by omega
+    simp only [hz, if_true, hgt, if_false] at h1 h2
+    have hE : ((0 + 1 : Nat) : Int) - 1075 - 1 = -1074 - 1 := by omega
+    have hM : 2 * (2 ^ 52 + 0) - 1 = 2 * (2 ^ 52 - 1) + 1 := by omega
+    rw [hE, hM] at h2
+    exact ord_excl (p := (2 ^ 52 - 1) % 2 == 0) (q := (2 ^ 52 + 0) % 2 == 0)
+      (by decide) h1.1.2 h2.2
+  · have hgt : (True ∧ n / 2 ^ 52 + 1 > 1) := ⟨trivial, by omega⟩
+    simp only [hz, if_false, hgt] at h1 h2
+    have hE : ((n / 2 ^ 52 + 1 : Nat) : Int) - 1075 - 2 = ((n / 2 ^ 52 : Nat) : Int) - 1075 - 1 := by omega
+    have hM : 4 * (2 ^ 52 + 0) - 1 = 2 * (2 ^ 52 + (2 ^ 52 - 1)) + 1 := by omega
+    rw [hE, hM] at h2
+    exact ord_excl (p := (2 ^ 52 + (2 ^ 52 - 1)) % 2 == 0) (q := (2 ^ 52 + 0) % 2 == 0)
+      (by decide) h1.1.2 h2.2
+
+/-- any two adjacent positive finite doubles -/
+theorem decIsKey_adjacent_excl_pos (d : Dec) (n : Nat) (hn : 0 < n) (he : (n + 1) / 2 ^ 52 < 2047) :
+    ¬ (decIsKey d (n : Int) = true ∧ decIsKey d ((n + 1 : Nat) : Int) = true) := by
+  by_cases hm : n % 2 ^ 52 + 1 < 2 ^ 52
+  · exact decIsKey_adjacent_excl d n hn (by omega) hm
+  · exact decIsKey_adjacent_excl_cross d n hn he (by omega)
+
+/-- a negative key is denoted by the negated literals of its absolute value -/
+theorem decIsKey_neg (d : Dec) (n : Nat) (hn : 0 < n) :
+    decIsKey d (-(n : Int)) = decIsKey { d with neg := !d.neg } (n : Int) := by
+  have h0 : (n : Int) ≠ 0 := by omega
+  have h0' : -(n : Int) ≠ 0 := by omega
+  have hlt : ¬ ((n : Int) < 0) := by omega
+  have hlt' : (-(n : Int) < 0) := by omega
+  unfold decIsKey
+  simp only [beq_iff_eq, h0, h0', if_false, Int.natAbs_natCast, Int.natAbs_neg, hlt, hlt', decide_false, decide_true]
+  cases d.neg <;> simp
+
+/-- any two adjacent negative finite doubles -/
+theorem decIsKey_adjacent_excl_neg (d : Dec) (n : Nat) (hn : 0 < n) (he : (n + 1) / 2 ^ 52 < 2047) :
+    ¬ (decIsKey d (-(n : Int)) = true ∧ decIsKey d (-((n + 1 : Nat) : Int)) = true) := by
+  rw [decIsKey_neg d n hn, decIsKey_neg d (n + 1) (by omega)]
+  exact decIsKey_adjacent_excl_pos _ n hn he
+
+theorem cmpScaled_zero_right (A : Nat) (a : Int) (x : Int) (hA : 0 < A) : cmpScaled A a 0 x = .gt := by
+  unfold cmpScaled
+  simp only [Nat.zero_mul, Nat.compare_eq_gt]
+  exact Nat.mul_pos (Nat.mul_pos hA (Nat.pow_pos (by decide))) (Nat.pow_pos (by decide))
+
+/-- a literal with a zero mantissa denotes no positive key -/
+theorem decIsKey_zero_mant_pos (d : Dec) (n : Nat) (hn : 0 < n) (hd : d.mant = 0) :
+    decIsKey d (n : Int) = false := by
+  by_cases he : n / 2 ^ 52 < 2047
+  · rw [decIsKey_pos d n hn he]
+    simp only [hd]
+    have hM : 0 < (if n / 2 ^ 52 = 0 then n % 2 ^ 52 else 2 ^ 52 + n % 2 ^ 52) := by
+      split <;> omega
+    rw [cmpScaled_zero_right (4 * _ - 1) _ _ (by omega), cmpScaled_zero_right (2 * _ - 1) _ _ (by omega)]
+    simp
+  · exact decIsKey_nonfinite d n (by simpa using Nat.le_of_not_lt he)
+
+/-- THE EXACTNESS STATEMENT: one literal never denotes two adjacent order keys `k`, `k+1`, for
+    every literal and every pair of finite keys (negative, zero, subnormal, normal, across binades) -/
+theorem decIsKey_adjacent_excl_all (d : Dec) (k : Int)
+    (hk : k.natAbs / 2 ^ 52 < 2047) (hk1 : (k + 1).natAbs / 2 ^ 52 < 2047) :
+    ¬ (decIsKey d k = true ∧ decIsKey d (k + 1) = true) := by
+  rcases Int.lt_trichotomy k 0 with hneg | hz | hpos
+  · by_cases hm1 : k = -1
+    · subst hm1
+      intro ⟨h1, h2⟩
+      have h2' : decIsKey d 0 = true := h2
+      rw [decIsKey_zero] at h2'
+      have := decIsKey_neg d 1 (by decide)
+      have h1' : decIsKey d (-((1 : Nat) : Int)) = true := h1
+      rw [this, decIsKey_zero_mant_pos _ 1 (by decide) (by simpa using h2')] at h1'
+      exact absurd h1' (by simp)
+    · -- k ≤ -2 : k+1 = -n, k = -(n+1)
+      obtain ⟨n, hn⟩ : ∃ n : Nat, k + 1 = -(n : Int) := ⟨(-(k + 1)).toNat, by omega⟩
+      have hk' : k = -((n + 1 : Nat) : Int) := by omega
+      have hn0 : 0 < n := by omega
+      intro ⟨h1, h2⟩
+      rw [hn] at h2
+      rw [hk'] at h1
+      have he : (n + 1) / 2 ^ 52 < 2047 := by
+        have : k.natAbs = n + 1 := by omega
+        omega
+      exact decIsKey_adjacent_excl_neg d n hn0 he ⟨h2, h1⟩
+  · subst hz
+    intro ⟨h1, h2⟩
+    rw [decIsKey_zero] at h1
+    have h2' : decIsKey d ((1 : Nat) : Int) = true := h2
+    rw [decIsKey_zero_mant_pos d 1 (by decide) (by simpa using h1)] at h2'
+    exact absurd h2' (by simp)
+  · obtain ⟨n, hn⟩ : ∃ n : Nat, k = (n : Int) := ⟨k.toNat, by omega⟩
+    subst hn
+    have he : (n + 1) / 2 ^ 52 < 2047 := by
+      have : ((n : Int) + 1).natAbs = n + 1 := by omega
+      omega
+    exact decIsKey_adjacent_excl_pos d n (by omega) he
+
 end Sod.Codec
